@@ -75,3 +75,30 @@ def _paths():
     sys.path.insert(0, REPO)
     import warnings
     warnings.filterwarnings("ignore")
+    _cache_jit()
+
+
+_JIT_DONE = False
+
+
+def _cache_jit():
+    """A dozen kernels are declared without cache=True and would be recompiled by every worker process (7-40 s).
+    Switching on Numba's on-disk cache for them from outside changes nothing they compute; the cache directory is
+    keyed by the hash of the whole tree, so no stale code can be picked up."""
+    global _JIT_DONE
+    if _JIT_DONE or os.environ.get("NUMBA_DISABLE_JIT") == "1" or os.environ.get("VERIF_NO_JIT_CACHE"):
+        return
+    _JIT_DONE = True
+    try:
+        import importlib
+        for mn in ("basic_robotics.modern_robotics_numba.modern_high_performance",
+                   "basic_robotics.general.faser_high_performance"):
+            m = importlib.import_module(mn)
+            for k, v in vars(m).items():
+                if hasattr(v, "enable_caching") and hasattr(v, "py_func") and getattr(v.py_func, "__module__", None) == mn:
+                    try:
+                        v.enable_caching()
+                    except Exception:
+                        pass
+    except Exception:
+        pass  # a tree that does not import is reported by the checks themselves
